@@ -37,11 +37,14 @@ FINISH = dict(level="model_checking",
 
 LEV = ["a", "b", "c"]          # Lev of the spec
 CLEV = ["u", "v"]              # levels of the categorical that sits in the context
-PLAIN = dict(dense="tuple", sparse="dict", ident="same", form="lists", cls="dict", ctx="dense", noise=1, nest="tuple")
+LEV2 = ["d", "a", "b"]         # the names the SECOND action set gives its categoricals under levels=local (partly those of the first, at other positions)
+PLAIN = dict(dense="tuple", sparse="dict", ident="same", form="lists", cls="dict", ctx="dense", noise=1, nest="tuple", levels="shared")
 FEATURES = dict(dense=("tuple", "list", "lazy"), sparse=("dict", "lazy"),
                 ident=("same", "copy", "alias", "alias2"), form=("lists", "mapping"), cls=("dict", "coba"),
                 ctx=("dense", "none", "scalar", "sparse"), noise=(1, 7),
-                nest=("tuple", "list"))        # the container of a NESTED part of an action (a mutable one can be shared between input and output)
+                nest=("tuple", "list"),        # the container of a NESTED part of an action (a mutable one can be shared between input and output)
+                levels=("shared", "own", "local"))   # the level list a categorical carries: one list for the whole environment / the levels that occur in the
+                                               # interaction's own action set, in its own order / the same with a vocabulary of its own per action set (see levels_of)
 
 
 def rendering(k):
@@ -53,12 +56,36 @@ def rendering(k):
 
 
 # ---- conversion of spec values to Python values ----------------------------------------------------------------
+def levels_of(setc, u, rd):
+    """(name of Cat(j) by j - 1, level list) of the categoricals of action set number u.  The spec's Cat(j) is an abstract
+    level; only that different j are different values (with different one-hots) within an interaction matters to it.
+    shared: Categorical(LEV[j], LEV) everywhere.  own: all categoricals of an interaction carry the levels that occur in
+    its action set, in the order of their first appearance (so the level list differs between interactions that offer
+    different actions).  local: the same, and the second action set names its levels from a vocabulary of its own."""
+    mode = rd.get("levels", "shared")
+    if mode == "shared": return LEV, LEV
+    names = LEV2 if (mode == "local" and u != 1) else LEV
+    seen = []
+    def walk(c):
+        if isinstance(c, (int, str)): return
+        if c[0] == "c":
+            if c[1] not in seen: seen.append(c[1])
+        elif c[0] == "s":
+            for x in c[1]: walk(x)
+        elif c[0] == "map":
+            for _, v in c[1]: walk(v)
+    for c in setc: walk(c)
+    return names, [names[j - 1] for j in seen]
+
+
 def mk_val(c, rd, top=True):
     from coba.primitives import Categorical
     from coba.pipes.rows import LazyDense, LazySparse
     if isinstance(c, (int, str)): return c
     tag = c[0]
-    if tag == "c": return Categorical(LEV[c[1] - 1], LEV)
+    if tag == "c":
+        names, levels = rd.get("_lv", (LEV, LEV))
+        return Categorical(names[c[1] - 1], levels)
     if tag == "s":
         items = [mk_val(x, rd, False) for x in c[1]]
         if not top: return tuple(items) if rd.get("nest", "tuple") == "tuple" else items
@@ -80,7 +107,9 @@ def mk_alias(c, rd):
     if isinstance(c, int): return float(c)
     if isinstance(c, str): return str(c)
     tag = c[0]
-    if tag == "c": return LEV[c[1] - 1] if rd["ident"] == "alias" else Categorical(LEV[c[1] - 1], LEV[::-1])
+    if tag == "c":
+        names, levels = rd.get("_lv", (LEV, LEV))
+        return names[c[1] - 1] if rd["ident"] == "alias" else Categorical(names[c[1] - 1], levels[::-1])
     if tag == "s":
         items = [mk_val(x, rd, False) for x in c[1]]
         return HashableDense(items) if rd["dense"] == "tuple" else mk_val(c, rd)
@@ -140,11 +169,12 @@ def mk_ctx(n, rd):
     return (c, n) if k == "dense" else None if k == "none" else n if k == "scalar" else {"c": c, "d": n}
 
 
-def build(case, rd):
+def build(case, rd0):
     from coba.primitives import SimulatedInteraction, GroundedInteraction, LoggedInteraction
     out = []
     for n, u in enumerate(case["use"], 1):
         setc = case["sets"][u - 1]
+        rd = dict(rd0, _lv=levels_of(setc, u, rd0))      # the categoricals of this interaction: their names and the level list they carry
         A = [mk_val(c, rd) for c in setc]
         d = {"id": n, "context": mk_ctx(n, rd), "actions": A, "rewards": mk_reward(case["R"][n - 1], A, setc, rd)}
         F = mk_reward(case["F"][n - 1], A, setc, rd)
